@@ -83,9 +83,9 @@ pub fn evo_case(case: &Value, dispatch: Dispatch, r: &mut Report) {
         }
         // C07: records with a header are skipped in full by every version
         if v1 && top {
-            for s in [vec![0u8], vec![1, 0], vec![255]] {
+            for s in [vec![0u8], vec![1, 0], vec![255]].iter().chain(crate::ops::followers().iter()) {
                 let mut bs = b.clone();
-                bs.extend(&s);
+                bs.extend(s);
                 expect_dec(rops, &bs, &want, s.len(), "evo_suffix", &["C07"], r);
             }
         }
